@@ -113,6 +113,7 @@ def check(solver, kind='query', name=None):
 
 
 INCR_MS = 4000
+RETRY_FACTOR = 3  # validity queries that time out are repeated once with this times the budget
 
 
 class EmptyRegion(Exception):
@@ -612,6 +613,15 @@ def prove(goal, assumptions=(), timeout_ms=60000, name=None, kind='validity'):
         s.add(a)
     s.add(z3.Not(goal))
     r = check(s, kind, name)
+    if r == 'unknown' and kind == 'validity' and RETRY_FACTOR > 1:
+        # one more attempt with a longer budget before the query is reported as undecided (a loaded machine must not turn a decided query into an
+        # inconclusive one); the first attempt stays in the statistics as 'unknown'
+        s = z3.Solver()
+        s.set('timeout', int(timeout_ms * RETRY_FACTOR))
+        for a in assumptions:
+            s.add(a)
+        s.add(z3.Not(goal))
+        r = check(s, kind + '-retry', name)
     return r, (s.model() if r == 'sat' else None)
 
 
